@@ -78,6 +78,14 @@ func (e *Exec) call(fr *frame, ci ssa.CallInstruction, st *State, k func(*State,
 		k(st, res)
 		return
 	}
+	if e.bounded > 0 && e.hooks == nil {
+		// bounded fallback: sorting with a comparator the contracts do not describe is executed by enumeration
+		if key := calleeKey(callee); key == "slices.SortFunc" || key == "slices.SortStableFunc" || key == "sort.Slice" || key == "sort.SliceStable" {
+			if e.sortEnum(fr, ci, key, args, st, k) {
+				return
+			}
+		}
+	}
 	_, modelled := externs[calleeKey(callee)]
 	if (e.ld.isModuleFn(callee) && len(callee.Blocks) > 0) || (!modelled && e.inlineDepth < maxInlineDepth && e.stdInlinable(callee, 0)) {
 		if e.inlineDepth >= maxInlineDepth || callee == fr.fn {
@@ -422,4 +430,89 @@ func hasPropExact(props []string, p string) bool {
 		}
 	}
 	return false
+}
+
+
+// sortEnum (bounded mode only): slices.SortFunc / sort.Slice on a slice of at most 3 elements is executed by
+// enumerating the permutations of its cells and keeping those on which the caller's own comparator, executed
+// symbolically on adjacent elements, reports the right order. Longer slices are beyond the bound (pruned).
+func (e *Exec) sortEnum(fr *frame, ci ssa.CallInstruction, key string, args []SV, st *State, k func(*State, SV)) bool {
+	if len(args) != 2 || args[1].Fn == nil {
+		return false
+	}
+	byIndex := strings.HasPrefix(key, "sort.")
+	var s SV
+	if byIndex {
+		mi, ok := ci.Common().Args[0].(*ssa.MakeInterface)
+		if !ok {
+			return false
+		}
+		s = e.val(st, mi.X)
+	} else {
+		s = args[0]
+	}
+	slt, ok := s.T.Underlying().(*types.Slice)
+	if !ok || len(s.L) != 4 {
+		return false
+	}
+	leaves := flatten(slt.Elem())
+	cmp := args[1].Fn
+	perms := map[int][][]int{0: {{}}, 1: {{0}}, 2: {{0, 1}, {1, 0}}, 3: {{0, 1, 2}, {0, 2, 1}, {1, 0, 2}, {1, 2, 0}, {2, 0, 1}, {2, 1, 0}}}
+	e.boundHits++ // slices longer than 3 are not explored
+	for n := 0; n <= 3; n++ {
+		for _, pi := range perms[n] {
+			st2 := st.clone()
+			st2.pc = append(st2.pc, Eq(s.L[2], IntLit(int64(n))))
+			// new cells: position i holds the old cell pi[i]
+			for _, l := range leaves {
+				name := heapSym("A", typeKey(slt.Elem()), l.Path)
+				A := e.heapGet(st2, name, ArrSort(SInt, ArrSort(SInt, l.Sort)))
+				oldRow := Select(A, s.L[0])
+				row := oldRow
+				for i := 0; i < n; i++ {
+					row = Store(row, CellIdx(s.L[1], IntLit(int64(i))), Select(oldRow, CellIdx(s.L[1], IntLit(int64(pi[i])))))
+				}
+				e.heapSet(st2, name, Store(A, s.L[0], e.ctx.def("sorted", row)))
+			}
+			elem := func(stx *State, i int) SV {
+				out := SV{T: slt.Elem()}
+				for _, l := range leaves {
+					name := heapSym("A", typeKey(slt.Elem()), l.Path)
+					A := e.heapGet(stx, name, ArrSort(SInt, ArrSort(SInt, l.Sort)))
+					out.L = append(out.L, Select(Select(A, s.L[0]), CellIdx(s.L[1], IntLit(int64(i)))))
+				}
+				return out
+			}
+			var chain func(stx *State, i int)
+			chain = func(stx *State, i int) {
+				if i+1 >= n {
+					k(stx, SV{})
+					return
+				}
+				var cargs []SV
+				if byIndex {
+					// less(i+1, i) must be false
+					cargs = []SV{scalar(types.Typ[types.Int], IntLit(int64(i+1))), scalar(types.Typ[types.Int], IntLit(int64(i)))}
+				} else {
+					cargs = []SV{elem(stx, i), elem(stx, i+1)}
+				}
+				e.inlineDepth++
+				e.runFunc(cmp.Fn, nil, cargs, cmp.Bindings, stx, true, func(st3 *State, results []SV) {
+					if len(results) != 1 || len(results[0].L) != 1 {
+						return
+					}
+					r := results[0].L[0]
+					if byIndex {
+						st3.pc = append(st3.pc, Not(r))
+					} else {
+						st3.pc = append(st3.pc, Le(r, IntLit(0)))
+					}
+					chain(st3, i+1)
+				}, fr.pan)
+				e.inlineDepth--
+			}
+			chain(st2, 0)
+		}
+	}
+	return true
 }
